@@ -290,7 +290,7 @@ def run(ctx):
     import pyunicorn.core.interacting_networks as IN
     rng = ctx.rng
     quick = ctx.tier == "quick"
-    scale = 2 if quick else 20
+    scale = 4 if quick else 50
     ctx.rule = ("case = (operation, level, input network / partition / distance matrix / tolerance / "
                 "parameters, recorded draw stream); distinct = distinct canonical encodings; "
                 "non-trivial = at least one rewiring / link placement actually happened "
@@ -361,7 +361,7 @@ def run(ctx):
         return (f"{tag} {MODES[mode]} {n} {enc_mat(A0)} {enc_mat(D)} {eps} {enc_vec(deg)} "
                 f"{enc_mat(edges0)} {iterations} {enc_mat(draws)}")
 
-    n_geo = (250 if quick else 2500)
+    n_geo = (600 if quick else 8000)
     for _ in range(n_geo):
         n, A, D, eps, mode = geo_case("kernel")
         A = A.astype(ADJ)
@@ -416,7 +416,7 @@ def run(ctx):
     # 2. geographical rewiring through SpatialNetwork
     # ------------------------------------------------------------------
     reqs, impl = [], []
-    for _ in range(80 if quick else 800):
+    for _ in range(200 if quick else 2500):
         for _try in range(12):
             n, A, D, eps, mode = geo_case("method")
             D = np.maximum(D, D.T)
@@ -508,7 +508,7 @@ def run(ctx):
         return sup, state
 
     reqs, impl = [], []
-    for _ in range(150 if quick else 1500):
+    for _ in range(400 if quick else 5000):
         n = rng.choice([4, 5, 6, 7, 8, 9, 10, 11])
         gk, A = structured_graph(rng, n)
         if rng.random() < 0.5:
@@ -712,7 +712,7 @@ def run(ctx):
     # 4. Barabasi-Albert (own implementation)
     # ------------------------------------------------------------------
     reqs, impl = [], []
-    for c in range(150 if quick else 1500):
+    for c in range(400 if quick else 5000):
         m = rng.choice([1, 1, 2, 2, 3, 4])
         N = m + 1 + rng.choice([0, 1, 2, 3, 5, 8, 12])
         natural = rng.random() < 0.3
